@@ -24,6 +24,15 @@ theorem cancel_sameCore (s : St) (i : Nat) : sameCore (cancel s i) s := by
   · simp only
     split <;> exact ⟨rfl, rfl, rfl, rfl, rfl, rfl, rfl⟩
 
+/-- a cancellation never touches the module caches -/
+theorem cancel_sameCore' (s : St) (i : Nat) :
+    (cancel s i).fmod = s.fmod ∧ (cancel s i).mods = s.mods := by
+  unfold cancel
+  split
+  · exact ⟨rfl, rfl⟩
+  · simp only
+    split <;> exact ⟨rfl, rfl⟩
+
 theorem cancelAll_sameCore (s : St) (is : List Nat) : sameCore (cancelAll s is) s := by
   induction is generalizing s with
   | nil => exact sameCore_refl s
@@ -291,9 +300,40 @@ theorem spec_ne (inv : Inv) (a : Nat) :
   · unfold behOutcome
     cases inv.beh <;> exact ⟨by simp, by simp⟩
 
+/-- what ends a run inside the module's top-level code yields the outcome the Spec demands -/
+theorem modEnd_outcome (s : St) (k : Nat) (inv : Inv) (h : modEnds s inv = true) :
+    (modEnd s k inv).2 = specOutcome inv s.acc := by
+  unfold modEnd specOutcome
+  simp only
+  cases hoc : ownCancel inv with
+  | true => simp
+  | false =>
+    simp only [Bool.false_eq_true, ↓reduceIte]
+    unfold modEnds at h
+    rw [hoc] at h
+    unfold behOutcome
+    cases hb : inv.beh <;> simp_all
+
+/-- ... and leaves the frame pointer, the running flag alone and cancels at most the
+    invocation's own context -/
+theorem modEnd_facts (s : St) (k : Nat) (inv : Inv) :
+    (modEnd s k inv).1.fp = s.fp ∧
+    (∀ i ∈ (modEnd s k inv).1.cancelled, i ∈ s.cancelled ∨ i = k) := by
+  unfold modEnd
+  simp only
+  cases ownCancel inv with
+  | true =>
+    simp only [↓reduceIte]
+    exact ⟨(cancel_sameCore s k).2.2.2.1, fun i hi => cancel_cancelled s k i hi⟩
+  | false =>
+    simp only [Bool.false_eq_true, ↓reduceIte]
+    exact ⟨trivial, fun i hi => Or.inl hi⟩
+
 /-- **One invocation, any state an arbitrary history can leave behind.**  Its outcome is
     determined by three things only: whether the import of a global module fails, whether a
-    stale watcher fires, and otherwise the Spec (own code, arguments, current globals). -/
+    stale watcher fires, and otherwise the Spec (own code, arguments, current globals) - in
+    particular it does not depend on whether the file module is cached, on where (module
+    top-level code or leaf) the run ends, or on which code object is re-supplied. -/
 theorem step_outcome (s : St) (k : Nat) (inv : Inv) (g : Good s k) :
     (invoke s k inv).2 =
       if importFails s k inv then .errImport
@@ -310,20 +350,29 @@ theorem step_outcome (s : St) (k : Nat) (inv : Inv) (g : Good s k) :
       unfold importFails
       cases h1 : inv.imp <;> cases h2 : (bodyState s k inv).mods <;> simp_all
     rw [hf]
-    obtain ⟨l1, _, _, l4, l5, _⟩ := leaf_facts (bodyState s k inv) k inv b1 b4 b5
-    have hcore : (core (bodyState s k inv) k inv).2
-        = leafOutcome (leaf (bodyState s k inv) k inv) k inv := by
-      unfold core; simp only [himp, ↓reduceIte]
-    simp only [Bool.false_eq_true, ↓reduceIte]
-    rw [hcore]
-    unfold leafOutcome
-    rw [l4, l5, l1, b2]
-    unfold staleFires
-    rw [hf]
-    unfold specOutcome
-    cases ownCancel inv <;> cases (earlier k inv.during).any (fires (bodyState s k inv)) <;> simp
+    cases hme : modEnds (bodyState s k inv) inv with
+    | true =>
+      have hcore : (core (bodyState s k inv) k inv).2 = (modEnd (bodyState s k inv) k inv).2 := by
+        unfold core; simp only [himp, hme, ↓reduceIte]
+      have hs : staleFires s k inv = false := by unfold staleFires; rw [hme]; simp
+      simp only [Bool.false_eq_true, ↓reduceIte]
+      rw [hcore, hs, modEnd_outcome _ k inv hme, b2]
+      simp
+    | false =>
+      obtain ⟨l1, _, _, l4, l5, _⟩ := leaf_facts (bodyState s k inv) k inv b1 b4 b5
+      have hcore : (core (bodyState s k inv) k inv).2
+          = leafOutcome (leaf (bodyState s k inv) k inv) k inv := by
+        unfold core; simp only [himp, hme, Bool.false_eq_true, ↓reduceIte]
+      simp only [Bool.false_eq_true, ↓reduceIte]
+      rw [hcore]
+      unfold leafOutcome
+      rw [l4, l5, l1, b2]
+      unfold staleFires
+      rw [hf, hme]
+      unfold specOutcome
+      cases ownCancel inv <;> cases (earlier k inv.during).any (fires (bodyState s k inv)) <;> simp
 
-/-- the invariant is re-established by every invocation, however it ends -/
+/-- the invariant is re-established by every invocation, however (and wherever) it ends -/
 theorem step_good (s : St) (k : Nat) (inv : Inv) (g : Good s k) :
     Good (invoke s k inv).1 (k + 1) := by
   rw [invoke_eq s k inv g]
@@ -332,12 +381,24 @@ theorem step_good (s : St) (k : Nat) (inv : Inv) (g : Good s k) :
   · unfold core
     simp only [himp, and_self, ↓reduceIte]
     exact ⟨rfl, b3, fun i hi => Nat.lt_succ_of_lt (b4 i hi)⟩
-  · obtain ⟨_, l2, _, _, _, l6⟩ := leaf_facts (bodyState s k inv) k inv b1 b4 b5
-    unfold core
-    simp only [himp, ↓reduceIte]
-    refine ⟨rfl, ?_, l6⟩
-    show (leaf (bodyState s k inv) k inv).fp - (inv.depth + 1) = 0
-    rw [l2, b3]; omega
+  · cases hme : modEnds (bodyState s k inv) inv with
+    | true =>
+      obtain ⟨m1, m2⟩ := modEnd_facts (bodyState s k inv) k inv
+      have hcore : core (bodyState s k inv) k inv = modEnd (bodyState s k inv) k inv := by
+        unfold core; simp only [himp, hme, ↓reduceIte]
+      rw [hcore]
+      refine ⟨rfl, by show (modEnd (bodyState s k inv) k inv).1.fp = 0; rw [m1, b3], ?_⟩
+      intro i hi
+      rcases m2 i hi with h | h
+      · exact Nat.lt_succ_of_lt (b4 i h)
+      · omega
+    | false =>
+      obtain ⟨_, l2, _, _, _, l6⟩ := leaf_facts (bodyState s k inv) k inv b1 b4 b5
+      unfold core
+      simp only [himp, hme, Bool.false_eq_true, ↓reduceIte]
+      refine ⟨rfl, ?_, l6⟩
+      show (leaf (bodyState s k inv) k inv).fp - (inv.depth + 1) = 0
+      rw [l2, b3]; omega
 
 /-- while the host callback runs the VM is marked running: a re-entrant Run/RunCode/Call
     from the callback is refused -/
